@@ -408,6 +408,7 @@ def run(P, R, tier):
                 or (f.cls is not None and f.mod.name.startswith('spatialpandas.geometry.')):
             shared.append(f)
     common.who_mutates(P, R, 'C18.e', shared, note=' (objects are shared between threads: concurrent callers see each other\'s writes)')
+    common.decorated_methods(P, R, 'C18.e', shared, note=' (objects are shared between threads)')
     # write-target identity inside the writer helpers: the path opened for writing is the helper's own path argument
     F = P.func('spatialpandas.dask', 'DaskGeoDataFrame.pack_partitions_to_parquet')
     nopen = 0
